@@ -50,7 +50,10 @@ def register(R):
   R.add(Contract(
       f'{TF}::TreeFn._get_outputs', P, variant='one-key', types=dict(self='TreeFn', outputs='tuple[tree]', inputs='tree'), ret='tree',
       setup=_fn_with(output_keys='tuple[keypath]'), ghost={'S0': 'region'}, site_ghost=region, modifies=['theap'],
-      requires=OUT_REQ + ['in_region(S0, outputs[0])'], may_raise=RAISES,
+      requires=OUT_REQ + ['in_region(S0, outputs[0])'],
+      # no spurious failure: a one-key path the record accepts is always assigned
+      raises_ensures={e: ['len(self.output_keys[0]) > 0 and not is_self_key(head(self.output_keys[0]))',
+                          'not old(one_step_ok(inputs, self.output_keys[0]))'] for e in RAISES},
       ensures=['frame_ok()', 'region_ok(grown(S0))', 'in_region(grown(S0), result)',
                'implies(plain_path(self.output_keys[0]), reads_back(grown(S0), result, self.output_keys[0], outputs[0]))',
                'implies(len(self.output_keys[0]) > 0 and plain_path(self.output_keys[0]) and not is_self_key(head(self.output_keys[0])) and t_kind(inputs) != 4,'
@@ -88,6 +91,8 @@ def register(R):
           'self._exhausted == old(self._exhausted)'],
       raises_ensures={
           'StopIteration': ['pos0 >= len(self._iterator.src)', 'self._exhausted', 'len(self._buffer) == buf0',
+                            # the source's return value is kept for the replaying side
+                            'self._returned is self._iterator.ret',
                             'forall(lambda i: self._buffer[i] is old(self._buffer[i]), 0, buf0)'],
           'RuntimeError': ['self._buffer_size > 0 and buf0 == self._buffer_size', 'len(self._buffer) == buf0']},
       bounded='bounded_operator_chains',
